@@ -99,8 +99,7 @@ Definition judge (c : case) : verdict :=
         | Some rp, Some ps => if beq_props rp ps then VOk else VMismatch
         | _, _ => VOk
         end
-      else if trigger_null (fw c) (ct c) (ctx c) && beq_obytes (Some o) impl then VKnown 1
-      else VViolation
+      else VViolation    (* C19-1 (null instead of []) is fixed: a recurrence is a violation *)
     end
   else
     if holds_host_first c then (if beq_obytes (observed c) impl then VOk else VMismatch)
